@@ -100,10 +100,10 @@ def _where(repo, col):
     found = 0
     for f in kin.CHANNEL_FILES + ["jaxley/solver_gate.py"]:
         for fi in kin.module_helpers(repo, f):
-            has_where = any(isinstance(n, ast.Call) and unparse(n.func).endswith("where") for n in ast.walk(fi.node))
-            if not has_where:
+            # every helper with a division is examined: a helper that lost its guard (or never had one) is the case to find
+            has_div = any(isinstance(n, ast.BinOp) and isinstance(n.op, ast.Div) for n in ast.walk(fi.node))
+            if not has_div:
                 continue
-            found += 1
             ev = kin.new_eval(repo)
             ev.trace_div = True
             try:
@@ -112,6 +112,7 @@ def _where(repo, col):
                 col.unk(R, fi, fi.name, f"outside the analysable fragment: {e}", node=fi.node)
                 continue
             for node, a, b, stack in ev.divisions:
+                found += 1
                 den = as_pw(b)
                 for conds, d in den.pieces:
                     reg = kin.region_name(ev, conds)
@@ -121,8 +122,9 @@ def _where(repo, col):
                             f"on the region [{reg}] the denominator of `{unparse(node)[:60]}` is {d}: {why}. jnp.where evaluates both "
                             f"branches, so the unselected branch yields inf/NaN and the backward pass returns NaN gradients at the "
                             f"guarded voltage (use the double-where idiom: neutralise the argument under the same mask)", node=node)
+    col.info["helper_divisions_examined"] = found
     if found < 2:
-        raise AnalysisError("no where-guarded helper found (the F4 repair vanished?)")
+        raise AnalysisError("fewer than two divisions found in the rate helpers (channel files moved?)")
 
 
 def _nonzero(ev, d: Rat, conds):
@@ -162,6 +164,8 @@ def _nonzero(ev, d: Rat, conds):
     # a bare parameter (e.g. division by y): not a where-related singularity
     if len(d.n.t) == 1 and len(d.d.t) == 1:
         return "DISCHARGED", "monomial in the helper's parameters (caller's constant)"
+    if not any(a.startswith(("exp[", "log[", "tanh[", "abs[")) for a in atoms):
+        return "DISCHARGED", "polynomial in the helper's own parameters (rates / time step supplied by the caller; their positivity is R-C03's obligation)"
     return "UNDECIDED", "cannot decide whether the denominator vanishes"
 
 
